@@ -42,6 +42,18 @@ CLAIMED = {
         "6 C04",
         TECH,
     ),
+    "C06": (
+        "Bounded solver-based check: for MAP-T templates with an independent axis (10 templates, every independent axis) the axis is partitioned "
+        "into ints / negative ints / two slices / step-2 slices / negative-step slices, the parts are run with map(fixed_indices=..., cleanup=False) "
+        "in given or reversed order; after each part exactly the selected elements are present in the run folder and equal the denotation for ALL "
+        "integer inputs, at the end the stored data equal a full run, no element was computed twice and a final full run calls no user function. "
+        "Fixing a reduced axis, an unknown axis or an out-of-range index (symbolic) is rejected before any call. create_learners (with a symbolic "
+        "split_independent_axes) executed by simple_run or generation-wise in two orders stores the same data.",
+        "Trusted: z3, CrossHair path exhaustion and builtin models; token pickle; the adaptive package runs traced. Axis sizes (1..3, 2 for rank-3) and "
+        "partition modes are case-split. Outside: adaptive.Runner with executors, to_slurm_run, create_learners_from_sweep, sizes > 4.",
+        "6 C06",
+        TECH,
+    ),
     "C07": (
         "Bounded solver-based check: normalize_key and select_by_mask are confirmed over all paths for every mask of rank <= 3 with "
         "unbounded integer keys and axis sizes; DictArray and FileArray operation sequences (two dumps, one read of every kind, "
